@@ -133,7 +133,11 @@ func c09CheckCall(c wCall, db string, s *wSrc, es []c09Entry) {
 		if !c09AnyDBEntry(db, es) {
 			vAssert(c.reqDB == srcDB, "C09.dblevel-unmapped-unchanged")
 		} else if c.kind != "DescribeDatabase" {
-			vAssert(vImplies(wdb != srcDB, c.reqDB == wdb), "C09.dblevel-whole-db-entry-applies")
+			collLevel := false
+			for _, e := range es {
+				collLevel = vOr(collLevel, vAnd(e.kdb == srcDB, e.kcoll != "*"))
+			}
+			vAssert(vOr(collLevel, c.reqDB == wdb), "C09.dblevel-whole-db-entry-applies")
 		}
 	default:
 		vAssert(c09Route(c.routeDB) == wantDB, "C09.routed-database-is-mapped:"+c.kind)
